@@ -4,6 +4,8 @@
 // kernels.  After each call an earlier call may be re-issued with different buffer placement (offset 0..56, guard side)
 // and different prefill of outputs and scratch: outputs must be bit-identical.  Every *_simple call must also be
 // bit-identical to the same call through a table built fresh for exactly those parameters.
+#include <xmmintrin.h>
+
 #include <cmath>
 #include <map>
 
@@ -34,13 +36,17 @@ struct Spec {
   uint64_t s1, s2, nrows, ncols;
   int mtype;
   uint64_t dseed;
+  int tiny = 0;  // 1: operands scaled so that products fall into the subnormal range (visible if a call leaves FTZ/DAZ set)
   bool same_params(const Spec& o) const { return logm == o.logm && divisor == o.divisor && p1 == o.p1; }
 };
 
 static Spec gen_spec(Rng& r, uint64_t maxlog, uint32_t fnmask) {
   Spec s;
   do { s.fn = (int)r.below(NFN); } while (!((fnmask >> (s.fn % 8)) & 1));
-  s.logm = r.below(maxlog + 1);
+  // mostly small dimensions, one call in four anywhere up to maxlog (which goes up to 16: the largest and the smallest dimension meet
+  // in one history -- a cache slot shared by two dimensions needs exactly that)
+  s.logm = r.below(4) == 0 ? r.below(maxlog + 1) : r.below(std::min<uint64_t>(maxlog, 7) + 1);
+  s.tiny = r.below(8) == 0;
   if (s.fn >= R4_MUL_S && s.fn <= R4_TO_CPLX_S && s.logm < 2) s.logm = 2;
   s.divisor = std::ldexp(1.0, (int)r.below(12) - 2);
   s.p1 = 0;
@@ -51,7 +57,7 @@ static Spec gen_spec(Rng& r, uint64_t maxlog, uint32_t fnmask) {
   s.s1 = r.below(4); s.s2 = r.below(4); s.nrows = 1 + r.below(3); s.ncols = 1 + r.below(3);
   s.mtype = (int)(r.next() & 1);
   s.dseed = r.next();
-  if (s.fn >= NSIMPLE && s.logm > 8) s.logm = 8;
+  if (s.fn >= NSIMPLE && s.logm > 11) s.logm = 11;
   if (s.fn >= NSIMPLE && s.logm < 1) s.logm = 1;  // module N = 2^logm >= 2
   return s;
 }
@@ -97,9 +103,10 @@ static std::vector<uint8_t> execute(const Spec& s, uint64_t place_seed, int pref
     }
     case REIM_MUL_S: case REIM_ADDMUL_S: case CPLX_MUL_S: case CPLX_ADDMUL_S: case R4_MUL_S: case R4_ADDMUL_S: {
       double *a = (double*)P.in(2 * m * 8), *b = (double*)P.in(2 * m * 8), *r = (double*)P.out(2 * m * 8);
-      dfill(a, 2 * m, d, 1.0); dfill(b, 2 * m, d, 1.0);
+      const double sc = s.tiny ? std::ldexp(1.0, -530) : 1.0;  // tiny: every product is subnormal (exact results, but only without FTZ/DAZ)
+      dfill(a, 2 * m, d, sc); dfill(b, 2 * m, d, sc);
       const bool acc = s.fn == REIM_ADDMUL_S || s.fn == CPLX_ADDMUL_S || s.fn == R4_ADDMUL_S;
-      if (acc) dfill(r, 2 * m, d, 1.0);
+      if (acc) dfill(r, 2 * m, d, sc * sc);
       switch (s.fn) {
         case REIM_MUL_S: if (!fresh) reim_fftvec_mul_simple(m, r, a, b); else { auto* t = new_reim_fftvec_mul_precomp(m); reim_fftvec_mul(t, r, a, b); free(t); } break;
         case REIM_ADDMUL_S: if (!fresh) reim_fftvec_addmul_simple(m, r, a, b); else { auto* t = new_reim_fftvec_addmul_precomp(m); reim_fftvec_addmul(t, r, a, b); free(t); } break;
@@ -113,7 +120,7 @@ static std::vector<uint8_t> execute(const Spec& s, uint64_t place_seed, int pref
     }
     case REIM_FROM64_S: {
       int64_t* x = (int64_t*)P.in(2 * m * 8);
-      ifill(x, 2 * m, d, 49);
+      ifill(x, 2 * m, d, 50);
       double* r = (double*)P.out(2 * m * 8);
       if (!fresh) reim_from_znx64_simple(m, s.p1, r, x); else { auto* t = new_reim_from_znx64_precomp(m, s.p1); reim_from_znx64(t, r, x); free(t); }
       grab(r, 2 * m * 8);
@@ -130,6 +137,8 @@ static std::vector<uint8_t> execute(const Spec& s, uint64_t place_seed, int pref
           double mag = std::ldexp(0.5 + 0.499 * d.unit(), (int)L - (int)d.below(2));
           x[q] = std::floor(mag) * s.divisor * (d.below(2) ? -1.0 : 1.0);
         }
+        // and exact .5 ties: whichever way a kernel rounds them, it must do so independently of buffer placement and history
+        for (uint64_t q = 1; q < 2 * m; q += 5) x[q] = ((double)((int64_t)d.below(2001) - 1000) + 0.5) * s.divisor;
       }
       int64_t* r = (int64_t*)P.out(2 * m * 8);
       if (!fresh) reim_to_znx64_simple(m, s.divisor, s.p1, r, x); else { auto* t = new_reim_to_znx64_precomp(m, s.divisor, s.p1); reim_to_znx64(t, r, x); free(t); }
@@ -230,13 +239,14 @@ std::vector<Sub> vh_subs() {
   std::vector<Sub> subs;
   Sub s;
   s.name = "history";
-  s.fields = {{"len", 50, 400}, {"maxlog", 2, 10}, {"reissue", 10, 90}, {"fnmask", 1, 255}, {"seed", 0, INT64_MAX - 1}};
+  s.fields = {{"len", 50, 400}, {"maxlog", 2, 16}, {"reissue", 10, 90}, {"fnmask", 1, 255}, {"seed", 0, INT64_MAX - 1}};
   s.run = [](const Vals& v, Ctx& ctx) {
     const uint64_t len = v[0];
     Rng r((uint64_t)v[4]);
     std::vector<Spec> hist;
     std::vector<std::vector<uint8_t>> outs;
     uint64_t repeats = 0, interesting = 0, fresh_checks = 0;
+    const unsigned csr0 = _mm_getcsr() & 0xFFC0u;
     std::map<int, int> fam;
     for (uint64_t t = 0; t < len; ++t) {
       Spec sp = gen_spec(r, (uint64_t)v[1], (uint32_t)v[3]);
@@ -252,6 +262,15 @@ std::vector<Sub> vh_subs() {
       }
       std::vector<uint8_t> o = execute(sp, r.next(), (int)r.below(4), false);
       if (o.size() == 1 && o[0] == 0xEE) return ctx.failf("call %llu %s wrote outside its buffers", (unsigned long long)t, spec_str(sp).c_str());
+      {
+        // hidden thread state: the floating-point control bits (rounding mode, FTZ, DAZ, exception masks) must be what they were
+        const unsigned csr = _mm_getcsr() & 0xFFC0u;
+        if (csr != csr0) {
+          _mm_setcsr((_mm_getcsr() & ~0xFFC0u) | csr0);
+          return ctx.failf("call %llu of the history, %s, left the floating-point control state changed (MXCSR control bits 0x%04x -> 0x%04x): later results depend on it",
+                           (unsigned long long)t, spec_str(sp).c_str(), csr0, csr);
+        }
+      }
       if (sp.fn < NSIMPLE) {
         std::vector<uint8_t> f = execute(sp, r.next(), (int)r.below(4), true);
         ++fresh_checks;
@@ -287,6 +306,14 @@ std::vector<Sub> vh_subs() {
     ctx.nontrivial = interesting >= 1;
     for (auto& kv : fam) ctx.cls(std::string("fn:") + FNAMES[kv.first]);
     if (interesting) ctx.cls("repeat_after_other_params");
+    {
+      uint64_t lo = 99, hi = 0;
+      bool tiny = false;
+      for (auto& h : hist) { if (h.fn < NSIMPLE) { lo = std::min(lo, h.logm); hi = std::max(hi, h.logm); } tiny = tiny || h.tiny; }
+      if (lo == 0 && hi >= 16) ctx.cls("simple:m=1 and m=65536 in one history");
+      if (hi >= 12) ctx.cls("simple:m>=4096");
+      if (tiny) ctx.cls("subnormal-range operands");
+    }
   };
   subs.push_back(s);
   return subs;
